@@ -50,6 +50,7 @@ VPREL = '''pub mod vprel {
                           KeyPackage, PublicKeyPackage, IdentifierList};
     pub use crate::round1::{Nonce, NonceCommitment, SigningNonces, SigningCommitments, GroupCommitmentShare};
     pub use crate::round2::SignatureShare;
+    pub use crate::keys::repairable::{Delta, Sigma};
 }
 '''
 
